@@ -2,7 +2,8 @@
 // Cell A is a small tetrahedron whose first node is the query point p (A = p + 0.3 * unit tetrahedron), cell B a tetrahedron
 // scale * unit + offset, optional cell C (static) another tetrahedron. The whole tissue is shifted by T.
 // din: [cut_adh, cut_rep, l_min, T(3), p(3), B scale, B offset(3), C scale, C offset(3)]
-// iin: [class of A, class of B, with C (0/1), reference run (0/1), number of runs of the same model object]
+// iin: [class of A, class of B, with C (0/1), reference run (0/1), number of runs of the same model object, offset of the persistent cell ids,
+//       B is an octahedron with one collapsed edge (unused face slots) (0/1), list the geometry first (0/1)]
 // The real model's run() is executed; irsym records which (node, face) pairs pass the broad phase (calls of
 // aabb_intersection_check that return true).  With iin[3] = 1 the same tissue is also run through a second model object whose
 // grid has a single voxel per axis (min_edge_len = 1e9): same AABB test and narrow phase, no spatial discarding.
@@ -15,6 +16,7 @@
 #include "nucleus_cell.hpp"
 #include "static_cell.hpp"
 #include "contact_model_abstract.hpp"
+#include "local_mesh_refiner.hpp"
 #if CONTACT_MODEL_INDEX == 0
 #include "contact_node_face_via_spring.hpp"
 typedef contact_node_face_via_spring model_t;
@@ -28,8 +30,12 @@ typedef contact_face_face_via_coupling model_t;
 
 static const double T4P[12] = {0, 0, 0, 1, 0, 0, 0, 1, 0, 0, 0, 1};
 
+static const double T6P[18] = {1, 0, 0, -1, 0, 0, 0, 1, 0, 0, -1, 0, 0, 0, 1, 0, 0, -1};
+static const unsigned T6F[24] = {0, 2, 4, 2, 1, 4, 1, 3, 4, 3, 0, 4, 2, 0, 5, 1, 2, 5, 3, 1, 5, 0, 3, 5};
+static const unsigned T4F[12] = {0, 2, 1, 0, 1, 3, 0, 3, 2, 1, 2, 3};
+
 static cell_ptr make_cell(long cls, const std::vector<double>& pos, cell_type_param_ptr ct, unsigned id) {
-    std::vector<unsigned> ids = {0, 2, 1, 0, 1, 3, 0, 3, 2, 1, 2, 3};
+    std::vector<unsigned> ids = pos.size() == 18 ? std::vector<unsigned>(T6F, T6F + 24) : std::vector<unsigned>(T4F, T4F + 12);
     cell_ptr c;
     switch (cls) {
         case 0: c = std::make_shared<epithelial_cell>(pos, ids, id, ct); break;
@@ -57,11 +63,24 @@ static std::vector<cell_ptr> build(vio* io) {
         pb[3 * n + k] = D[9] * T4P[3 * n + k] + D[10 + k] + T[k];
         pc[3 * n + k] = D[13] * T4P[3 * n + k] + D[14 + k] + T[k];
     }
-    cells.push_back(make_cell(I[0], pa, mk_type(I[0]), 0));
-    cells.push_back(make_cell(I[1], pb, mk_type(I[1]), 1));
-    if (I[2]) cells.push_back(make_cell(4, pc, mk_type(4), 2));
+    // persistent ids ahead of the list positions by I[5] (the state after earlier cells have been removed or have divided)
+    const unsigned idoff = (unsigned) I[5];
+    cells.push_back(make_cell(I[0], pa, mk_type(I[0]), 0 + idoff));
+    if (I[6]) {
+        // B is an octahedron (scale * unit + offset) one of whose edges is collapsed below: its face list then has unused slots
+        pb.assign(18, 0.);
+        for (int n = 0; n < 6; n++) for (int k = 0; k < 3; k++) pb[3 * n + k] = D[9] * T6P[3 * n + k] + D[10 + k] + T[k];
+    }
+    cells.push_back(make_cell(I[1], pb, mk_type(I[1]), 1 + idoff));
+    if (I[2]) cells.push_back(make_cell(4, pc, mk_type(4), 2 + idoff));
     for (size_t k = 0; k < cells.size(); k++) {
-        cells[k]->initialize_cell_properties(false);
+        cells[k]->initialize_cell_properties(k == 1 && I[6]);      // the edge set is needed for the collapse
+        if (k == 1 && I[6]) {
+            local_mesh_refiner lmr(0.01, 100., false);
+            auto eo = cells[k]->get_edge(0u, 2u);
+            edge_set to_check;
+            if (eo.has_value() && lmr.can_be_merged(eo.value(), cells[k])) lmr.merge_edge(eo.value(), cells[k], to_check);
+        }
         cells[k]->set_local_id(k);
         // node normals / curvatures are inputs of the narrow-phase gates only: radial normals, flat curvature
         const vec3 ctr = cells[k]->compute_centroid();
@@ -73,6 +92,22 @@ static std::vector<cell_ptr> build(vio* io) {
         }
     }
     return cells;
+}
+
+static void dump_faces(vio* io, const std::vector<cell_ptr>& cells) {
+    long n = 0;
+    for (auto& c : cells) for (const face& f : c->face_lst_) if (f.is_used()) n++;
+    OI(n);
+    long ci = 0;
+    for (auto& c : cells) {
+        for (const face& f : c->face_lst_) if (f.is_used()) {
+            OI(ci); OI(f.get_local_id());
+            OV(c->node_lst_[f.n1_id_].pos()); OV(c->node_lst_[f.n2_id_].pos()); OV(c->node_lst_[f.n3_id_].pos());
+        }
+        ci++;
+    }
+    OI(-4242);
+    for (auto& c : cells) { long nn = 0; for (const node& nd : c->node_lst_) if (nd.is_used()) nn++; OI(nn); for (const node& nd : c->node_lst_) if (nd.is_used()) { OI(nd.get_local_id()); OV(nd.pos()); } }
 }
 
 static void dump(vio* io, const std::vector<cell_ptr>& cells) {
@@ -96,6 +131,7 @@ HARNESS(h_c06_broad) {
     sp.contact_cutoff_adhesion_ = D[0]; sp.contact_cutoff_repulsion_ = D[1]; sp.min_edge_len_ = D[2];
     {
         std::vector<cell_ptr> cells = build(io);
+        if (io->iin[7]) dump_faces(io, cells);     // geometry listing first (used faces in the order of the model's face list, used nodes)
         model_t model(sp);
         const long nruns = io->iin[4] > 1 ? io->iin[4] : 1;
         for (long k = 0; k < nruns; k++) {
